@@ -28,11 +28,11 @@ CLAIMS = {
         tech="Lean 4 proof (path algebra induction) + skeleton agreement + differential correspondence"),
     "C09": dict(
         text="resume_obligations for every reachable state of the closed client x environment system (a new connection carries bind and then exactly the owed claim/release, open + every un-echoed message, close, list, allocate - finite certificate over the generated tables lifted by induction), per-machine resume/lost table theorems by decide, data-layer pending_until_echo / drain_resends_all, nothing_repeated over all drop patterns; per-step correspondence with the real client under frequent drops; two-real-client oracle (drops on both sides, then stable connectivity: every send_message delivered exactly once, in order; key/verifier/versions once).",
-        note="Certificate evaluated with native_decide (reported per theorem). Partial: the liveness clause (eventually delivered once both stay connected) is stated as a def and checked by the two-client oracle only; no fair-scheduler proof.",
+        note="Certificate evaluated with native_decide (reported per theorem). Partial: liveness is proved in quiescence + no-trap form (control: key_exchange_always_completable; data: C09_Live); fairness itself (that a network performs the continuation) is not proved.",
         tech="Lean 4: finite certificate (native_decide) + kernel-checked lifting + table decide + data-layer lemmas; per-step differential correspondence"),
     "C16": dict(
         text="10 Lean theorems over the generated TrafficTimer and Manager tables for every interval T>=1 and arbitrary timed operation lists: responsive_never_dropped, silent_dropped_in_time / silent_after_answered_ping (drop exactly at the second expiry, < 3T), monitor_lifecycle, monitoring_restarts, follower_never_monitors, legal_never_raises, plus the witness that the pre-fix row violates the bound; delay/reset branch taken from generated flags; tied to a real leader Manager with task.Clock on a 1/8 s grid.",
-        note="Modelled not verified: Connector mocked; loss is a separate event after disconnect(); ping-id freshness (os.urandom) assumed; argument values inside callLater are visible only to correspondence and oracle.",
+        note="Modelled not verified: Connector mocked; loss is a separate event after disconnect(); ping ids opaque, freshness NOT assumed (exact guard freshNext stated); argument values inside callLater are visible only to correspondence and oracle.",
         tech="Lean 4 proof (induction over timed traces on generated tables) + skeleton agreement + differential correspondence"),
     "C17": dict(
         text="25 kernel-only Lean theorems on the generated Manager/Connector/Terminator/DCP tables and an executable model with the fake network's state: stop_from_every_state / stop_completes_after_any_interleaving (12-clause invariant by induction over conformant event sequences: Dilator.stop always leads to stoppedD and B.closed exactly once), stop_tells_everything, abandon_drops_active, late_callbacks_harmless, late_accept_refused, old_peer_reported_live / _replay (the replay guard is taken from a generated source flag) / _report_is_final / _future_connect_fails; 26 call skeletons as obligations; two witness theorems for protocol-violating peers that block shutdown (documented observations); tied to a real Terminator+Dilator+Manager+Connector+DilatedConnectionProtocol per case in both roles.",
@@ -115,8 +115,26 @@ ADDENDA = {
     "C18": "Environment includes hostile mailbox participants (DESIGN 11.7). Round 8: Deferred-mode applications whose callbacks take clock time and read the next message from inside a callback.",
     "C20": "Also: hostname classes (IDN, non-IDNA, long/empty labels, NUL, lone surrogates) through the real Twisted endpoints; describe_hint_obj pinned. Round 8: fates per started attempt (TCP-level failure, handshake failure, pending) through the real connect(); dead_hint_never_wins, dead_hints_never_abort.",
 }
+
+SESSION3 = {
+    "C01": "Session 3: application strings are code-point lists with a concrete strict UTF-8 (encodable as a decidable guard, injectivity proved instead of assumed): unencodable_code_refused, refused_shares_nothing_ever, unencodable_purpose_refused; to_bytes_is_strict pin; lone-surrogate codes/appids/purposes through every entry mode.",
+    "C03": "Session 3: TRANSLATION VALIDATION of the method bodies (WV.Props.PyIR_C03, PyIR_C03_Boss: for every heap related to the model's data, executing the Python-subset IR generated from the source of each Mailbox/Order/Send/Receive/Boss output agrees with the hand-written output semantics on final state, ordered calls with arguments and exception; loops for all lengths); several wormholes per process (process_isolation, e2e_prefix_process) with cross-client/cross-stream hand-over schedules; behaviour-only observation when private state is refactored.",
+    "C05": "Session 3: several receives with one Config object (receive_leaves_args_unchanged, decision_independent_of_history, every_receive_dest_is_child; generated fact outlives_receive = []).",
+    "C06": "Session 3: consumer_threshold_exact — consumer-mode threshold arithmetic for a consumer attached in any reachable state over any backlog and chunking (the former partial item); several live Connection objects per process (product model, links_independent, every_link_delivery_exact; generated fact shared_between_connections = []).",
+    "C07": "Session 3: late contenders that reach the factory after the selection (21 theorems over runL/drunL: late_contender_is_refused, late_same_link, late_winner_is_final); winner_test_is_about_none pin (no __len__/__bool__ on Connection).",
+    "C08": "Session 3: control-machine bodies translation-validated against WV.Client (WV.Props.PyIR_Client*).",
+    "C09": "Session 3: data half of the liveness clause PROVED on the two-client system for every number of messages and every earlier drop pattern (WV.Props.C09_Live: e2e_complete_clients — a Drained state has received = sent; e2e_always_completable — an explicit drop-free continuation reaches Drained); control-machine bodies translation-validated (WV.Props.PyIR_Client*); drained families on two real clients.",
+    "C10": "Session 3: Outbound ARQ methods and the Inbound watermark translation-validated against the model (WV.Props.PyIR_C10: handle_ack, use_connection with its replay loop, queue_and_send_record incl. queued-before-send, resumeProducing with re-entrant pause at any budget).",
+    "C13": "Session 3: data_before_close_honest for ALL honest schedules (arbitrary declared subprotocol sets; connection loss while records are parked: lostA/lostB, linklost on the real link layer) — the former partial; 32-bit id boundary (connectW, ids_disjoint_wire, ids_never_wrap, PyIR agreement for allocate_subchannel_id); I/O between listen() and the next eventual turn.",
+    "C14": "Session 3: control-machine bodies translation-validated (WV.Props.PyIR_Client, _Boss, _Glue: 86 theorems); every way a participant-controlled PAKE body makes a statement of got_pake raise (79 bodies x 5 placements), family-level pins on the except tuples (Gen.Catches); frames relayed by the REAL server from a hostile participant (exposed the defect repaired by fix 9e43836, now judged strictly); application versions dicts with unencodable strings.",
+    "C15": "Session 3: Inbound pause-set methods and Outbound.pauseProducing translation-validated (WV.Props.PyIR_C15).",
+    "C16": "Session 3: ping ids are an input (random source fixed per case; boundary values, repeats, duplicates of outstanding ids, long sessions crossing 2^32): every theorem quantifies over any id sequence, legal_raises_only_on_duplicate_id, duplicate_id_kills_the_monitor (witness; observation, outside the quantifier).",
+    "C18": "Session 3: frames whose handler raises (Boss.error at any moment, also while closing): big-step semantics of the generated Boss table under arbitrary inputs nested to any depth — closed_once_and_last_whatever_calls_the_boss, boss_closed_rows pin; control-machine bodies translation-validated.",
+    "C19": "Session 3: completion sessions that go back and edit an earlier word, several clients/allocations per process (completions_depend_only_on_prefix, stale_completion_does_not_extend, helper/readline history independence).",
+    "C20": "Session 3: hints messages in any Manager state and generation (hints_total_generations, abandoned_generation_never_dials, hints_reach_current_generation, status_never_affects_hints; status_hints_always_a_set pin).",
+}
 EVERY = (" Every check also carries WV.Props.Common.instances_do_not_share_state (no mutable class-level container is mutated through self "
-         "anywhere under src/wormhole; generated list) and, in the thorough tier, a leanchecker replay of the property's import closure.")
+         "anywhere under src/wormhole; generated list), WV.Props.Common.translator_covers_everything (every generated module was regenerated from the working tree in this run; an untranslatable tree is a broken obligation, never a stale translation) and, in the thorough tier, a leanchecker replay of the property's import closure.")
 
 
 def theorem_count(pid):
@@ -142,6 +160,8 @@ def main():
             c["text"] = re.sub(r"^\d+ ((?:kernel-only )?Lean theorems)", lambda m: f"{n} " + m.group(1), c["text"])
         if pid in ADDENDA:
             c["text"] = c["text"] + " " + ADDENDA[pid]
+        if pid in SESSION3:
+            c["text"] = c["text"] + " " + SESSION3[pid]
         c["note"] = c["note"] + EVERY
         checks.append({
             "property_id": pid,
